@@ -157,12 +157,13 @@ func Aggregate(files []SourceFile) []*ProgramData {
 }
 
 // Uploadable filters aggregated data down to what the configuration approves
-// for a report with random value x: approved program builds, and under each
+// for a report with random value x: approved program builds (all five
+// identity fields listed), and under each
 // the listed counters/stacks whose rate is not below x.
 func (c *UploadConfig) Uploadable(data []*ProgramData, x float64) []*ProgramData {
 	var out []*ProgramData
 	for _, pd := range data {
-		if !c.ProgramApproved(pd.Program, pd.Version, pd.GoVersion) {
+		if !c.BuildApproved(pd.Program, pd.Version, pd.GoVersion, pd.GOOS, pd.GOARCH) {
 			continue
 		}
 		u := &ProgramData{Build: pd.Build, Counters: map[string]int64{}, Stacks: map[string]int64{}}
